@@ -560,8 +560,46 @@ WHAT = {
 }
 
 
+PINNED_FINGERPRINT = "220516b8b61846fc"  # sha256 prefix of the source of the modelled functions at the pinned commit
+
+
+def fingerprint() -> str:
+    """Source fingerprint of the functions the Lean model mirrors.  Not a verdict: when it differs from the pinned one the
+    model is being compared with changed code, and the generation budget is raised."""
+    import hashlib
+    import inspect
+
+    import pydra.engine.state as st
+    from pydra.engine.lazy import LazyOutField
+    from pydra.engine.node import Node
+    from pydra.engine.state import State
+    from pydra.engine.submitter import NodeExecution
+    from pydra.engine.workflow import Workflow
+
+    objs = [
+        State._connect_splitters, State._complete_prev_state, State._remove_repeated, State._add_state_history,
+        State._prevst_current_check, State.set_input_groups, State._merge_previous_groups, State._add_current_groups,
+        State.prepare_states_ind, State.prepare_states_combined_ind, State.prepare_inputs, State.splits, State.depth,
+        st.splits_groups, st.combine_final_groups, st.remove_inp_from_splitter_rpn,
+        Node._get_upstream_states, Node._set_state, Workflow._create_graph,
+        NodeExecution.start, NodeExecution._split_task, NodeExecution._resolve_lazy_inputs, LazyOutField._get_value,
+    ]  # fmt: skip
+    h = hashlib.sha256()
+    for o in objs:
+        h.update(inspect.getsource(o).encode())
+    return h.hexdigest()[:16]
+
+
 def correspondence(ctx):
     core.assert_repo_loaded()
+    try:
+        fpr = fingerprint()
+    except Exception as e:  # noqa: BLE001  (a modelled function disappeared: certainly changed code)
+        fpr = f"unavailable:{core.exc_tag(e)}"
+    ctx.extra["modelled_source_fingerprint"] = fpr
+    changed = fpr != PINNED_FINGERPRINT
+    if changed:
+        ctx.notes.append("modelled functions differ from the pinned commit: generation budget doubled")
     ctx.extra["proved_class_cases"] = (
         "see in_class_cases: the node-level theorems' hypotheses hold at every node; the workflow-level agreement there "
         "is checked on every case, not proved"
@@ -572,7 +610,7 @@ def correspondence(ctx):
     findings = load_corpus("findings.jsonl")
     cases = [dict(r["case"], shape="corpus", corpus_id=r["id"]) for r in findings]
     cases += [dict(r["case"], shape="corpus", corpus_id=r["id"]) for r in load_corpus("regressions.jsonl")]
-    n = ctx.pick(130, 2000)
+    n = ctx.pick(130, 2000) * (2 if changed else 1)
     cases += [gen_case(ctx.rng, max_jobs=ctx.pick(32, 90)) for _ in range(n)]
     res = run_cases(ctx, cases)
     by_id = {c.get("corpus_id"): (c, i, spec, model) for c, i, spec, model, _ in res if c.get("corpus_id")}
@@ -592,7 +630,7 @@ def correspondence(ctx):
 
 def _minimise(ctx):
     out = []
-    for v in ctx.violations[:3]:
+    for v in ctx.violations[: ctx.pick(2, 3)]:
         case = v.get("case")
         if not isinstance(case, dict) or "nodes" not in case:
             out.append(v)
@@ -612,7 +650,7 @@ def _minimise(ctx):
             return bad and not explained
 
         try:
-            small = shrink(case, still, budget=ctx.pick(25, 120))
+            small = shrink(case, still, budget=ctx.pick(8, 60))
         except Exception:  # noqa: BLE001  (shrinking is best effort)
             small = case
         v = dict(v, case=dict(small, shrunk_from=case))
